@@ -26,6 +26,7 @@ type VerifCache interface {
 	VerifSetExpires(key CacheKey, t time.Time)
 	VerifDir() map[string]int64
 	VerifJanitorInterval() time.Duration
+	VerifShift(d time.Duration)
 }
 
 func (j *cacheJanitor[MetadataT]) verifCycle() {
@@ -68,6 +69,17 @@ func (c *MemoryCache[MetadataT]) VerifSetExpires(key CacheKey, t time.Time) {
 }
 func (c *MemoryCache[MetadataT]) VerifDir() map[string]int64          { return nil }
 func (c *MemoryCache[MetadataT]) VerifJanitorInterval() time.Duration { return c.janitor.interval }
+
+// VerifShift moves every entry's timestamps back by d: exactly "d has elapsed" for the entries.
+func (c *MemoryCache[MetadataT]) VerifShift(d time.Duration) {
+	c.mu.RLock()
+	defer c.mu.RUnlock()
+	for _, e := range c.entries {
+		e.meta.TimeWritten = e.meta.TimeWritten.Add(-d)
+		e.meta.LastAccess = e.meta.LastAccess.Add(-d)
+		e.meta.Expires = e.meta.Expires.Add(-d)
+	}
+}
 
 // ---- file backend
 
@@ -118,3 +130,13 @@ func (c *FileCache[MetadataT]) VerifDir() map[string]int64 {
 	return out
 }
 func (c *FileCache[MetadataT]) VerifJanitorInterval() time.Duration { return c.janitor.interval }
+
+func (c *FileCache[MetadataT]) VerifShift(d time.Duration) {
+	c.mu.RLock()
+	defer c.mu.RUnlock()
+	for _, m := range c.entriesMetadata {
+		m.TimeWritten = m.TimeWritten.Add(-d)
+		m.LastAccess = m.LastAccess.Add(-d)
+		m.Expires = m.Expires.Add(-d)
+	}
+}
